@@ -488,6 +488,15 @@ func (c *Case) refStruct(v reflect.Value, out map[string]any) error {
 				}
 				continue
 			}
+			if ft.Kind() == reflect.Pointer && ft.Elem().Kind() == reflect.Struct && name == "" {
+				// encoding/json promotes the fields of an embedded pointer to a struct too (a nil one adds nothing)
+				if !v.Field(i).IsNil() {
+					if err := c.refStruct(v.Field(i).Elem(), out); err != nil {
+						return err
+					}
+				}
+				continue
+			}
 			if !f.IsExported() && ft.Kind() != reflect.Struct {
 				continue
 			}
